@@ -5,6 +5,7 @@ import json, os, shutil, subprocess, sys
 
 VERIF = os.path.dirname(os.path.dirname(os.path.abspath(__file__)))
 SRC = '/tmp/seedout'
+SOURCES = [('/tmp/seedout', ''), ('/tmp/seedout2', 'r2')]
 NEEDS = {
  'C01-m1': 'one-token sentence whose only/best route to a root category needs a unary rule',
  'C01-m2': 'lp rule made head-right: span with two derivations of one category and different heads (runs of punctuation)',
@@ -67,7 +68,87 @@ NEEDS = {
  'C20-m2': 'Japanese tree with an ADNext or >Bx3 node',
  'C20-m3': 'PTB token with a ) that is not at its end',
 }
-EXTRA = {'C16-m2': ['C11'], 'C18-m3': ['C07'], 'C03-m1': ['C06', 'C04'], 'C04-m2': ['C06'], 'C07-m2': ['C19'], 'C15-m1': ['C07']}
+NEEDS.update({
+ 'C01-r2m1': 'head-right grammar and a token whose best dependency score is its arc to the last token (argmax stops one column early)',
+ 'C01-r2m2': 'beta filter off and a needed tag whose exp(score) underflows to 0 (flattened row)',
+ 'C01-r2m3': 'best/only derivation needs two consecutive unary rules over one span',
+ 'C02-r2m1': 'beta on, best tag below about -92 so that the threshold underflows to 0, a hopeless tag (exp == 0) then admitted by >=',
+ 'C02-r2m2': 'category table with >= 65 ids and a full-span item whose id equals a root id modulo 64',
+ 'C02-r2m3': 'a zero-token sentence followed by another sentence, consumed through iter_parse_results',
+ 'C03-r2m1': 'right input exactly the modifier N\\N or NP\\NP and left input N/... or NP/... (bare N/NP guard bypassed)',
+ 'C03-r2m2': 'conjunction with a right input of shape NP\\NP (dead clause woken by ^ accepting strings): schema result missing',
+ 'C03-r2m3': 'the single pair , + S[dcl]/S[dcl] (head flag flipped)',
+ 'C04-r2m1': 'shared variable bound on both sides to functors with the same atoms but a different slash (^ ignores slashes)',
+ 'C04-r2m2': '<B2 with a true modifier X\\X on the right: head flag left',
+ 'C04-r2m3': 'SSEQ with S[mod=nm,form=attr|hyp|r|s,fin=f] (root list rebuilt as a product)',
+ 'C05-r2m1': 'a blank next to or inside the square brackets of a feature',
+ 'C05-r2m2': 'one category mixing a unary and a three-part feature',
+ 'C05-r2m3': 'punctuation atom as operand of a slash or inside redundant brackets, e.g. (:\\NP)/PP',
+ 'C06-r2m1': 'second call of a matcher whose first call failed in the shape phase',
+ 'C06-r2m2': 'input category with a | slash where the pattern has / or \\',
+ 'C06-r2m3': 'shared variable bound to functors of the same shape but a different inner slash',
+ 'C07-r2m1': 'xml with two tokens equal in every attribute in one sentence (offset looked up by value)',
+ 'C07-r2m2': 'ja format with a filled attribute after a blank one in the pos / inflection hierarchy',
+ 'C07-r2m3': 'conll with a binary node whose head direction differs from the root\'s',
+ 'C08-r2m1': 'underivable right-headed binary node read by read_auto (head flag lost)',
+ 'C08-r2m2': 'two leaves with the same word and category but different POS printed in one process (memo without POS)',
+ 'C08-r2m3': 'a token made of two adjacent bracket characters such as () or {}',
+ 'C09-r2m1': 'a returned leaf whose supertag is not the token\'s 1-best tag',
+ 'C09-r2m2': 'two directly stacked unary nodes and a non-zero penalty',
+ 'C09-r2m3': 'one-token sentence with a non-zero ROOT attachment score',
+ 'C10-r2m1': 'k>=2, unary chain Z->Y->X with X already in the cell by a better route',
+ 'C10-r2m2': 'k strictly greater than the number of derivations (list reported as failure)',
+ 'C10-r2m3': 'one-token sentence, k>=2, a root category with a unary rule to another root category',
+ 'C11-r2m1': 'mis-shaped sentence after a well-shaped one of the same length in one batch',
+ 'C11-r2m2': 'small max_step: the step budget is consumed across the sentences of one call',
+ 'C11-r2m3': 'pool path with len(doc) == m*ceil(len/processes)+1 (last one-sentence chunk dropped)',
+ 'C12-r2m1': 'n-best mode, a child pair with two same-category results and a node built from a later result',
+ 'C12-r2m2': 'one xml file with the same child pair under two different parents',
+ 'C12-r2m3': 'PTB reader under a grammar with right-headed rules (Japanese)',
+ 'C13-r2m1': 'two triple-feature categories differing only in the third key/value pair',
+ 'C13-r2m2': "triple feature with a variable value and 'X' among the erased names",
+ 'C13-r2m3': 'two functors with a different number of arguments whose outer arguments agree feature-blind',
+ 'C14-r2m1': 'seen-rule set given and an [X]-carrying non-modifier functor contributing [X] to the result',
+ 'C14-r2m2': 'unary table that is a defaultdict and a category that is not configured (table grows)',
+ 'C14-r2m3': 'a category object garbage collected and another one allocated at the same address (memo by id)',
+ 'C15-r2m1': 'derivation whose top node is unary (two spans flagged root)',
+ 'C15-r2m2': 'unary node labelled tr read by read_xml',
+ 'C15-r2m3': 'a second Jigg XML document processed in the same process (span table cached by ccg id)',
+ 'C16-r2m1': 'nbest > pruning_size (beam silently widened to nbest)',
+ 'C16-r2m2': 'filter on and the best tag well ahead of the runner-up (threshold from the runner-up)',
+ 'C16-r2m3': '--beta given with more than five decimals on the command line (rounded)',
+ 'C17-r2m1': 'tag-score matrix that is not C-contiguous (writes go to a temporary copy)',
+ 'C17-r2m2': 'en_rebank configuration given the English dictionary: dictionary categories outside its inventory',
+ 'C17-r2m3': 'dictionary entry listing the first category of the category list (index 0 treated as missing)',
+ 'C18-r2m1': 'n-best list whose scores are not descending, jigg_xml rendered first (list sorted in place)',
+ 'C18-r2m2': 'results rendered as xml, dropped, and later trees allocated at the same addresses (cache by id)',
+ 'C18-r2m3': 'tree with an lp node, conll rendered first, then auto (head flag written by the printer)',
+ 'C19-r2m1': 'ja prolog with the unary rule whose source is NP[case=nc,mod=adv,fin=f] (label OTHER)',
+ 'C19-r2m2': 'printer imported while the language is en, language then set to ja (default argument bound at import)',
+ 'C19-r2m3': 'en prolog with a token tagged with the lexical category ;',
+ 'C20-r2m1': 'bank line with dependency annotations on a functor category',
+ 'C20-r2m2': 'ja format with a token containing < or > (denormalize instead of normalize)',
+ 'C20-r2m3': 'a printed tree freed and a new tree allocated at the same addresses (ptb cache by id)',
+})
+HISTORY.update({
+ 'C01-r2m2': 'missed at first by C01 (caught by C16): extreme rows added to C01',
+ 'C02-r2m1': 'missed at first: rows deep in the negative range (threshold underflow) added',
+ 'C02-r2m2': 'missed at first: grammars with 70-140 categories added',
+ 'C02-r2m3': 'missed at first: iter_parse_results monitor added to C11',
+ 'C03-r2m2': 'missed at first: converse extended to conj / lp / rp / listed type-changing rows',
+ 'C07-r2m1': 'missed at first: sentences with repeated identical tokens added',
+ 'C10-r2m2': 'missed at first (placeholder judged only under C01/C16 keys): nbest:count on failure added',
+ 'C12-r2m1': 'missed at first: up to 4 results per pair with duplicates at any position, more n-best; glue keys owned by C12',
+ 'C13-r2m2': 'missed at first: variable triples added to the C13 alphabet',
+ 'C15-r2m1': 'missed at first: trees with a unary step at the root added',
+ 'C16-r2m1': 'missed at first: n-best cases added to C16',
+ 'C16-r2m3': 'missed at first: CLI shard (real parse_args) added to C16',
+ 'C17-r2m1': 'missed at first: non-contiguous score matrices added',
+ 'C17-r2m2': 'missed at first: every configuration that carries a dictionary is now checked against its own inventory',
+ 'C18-r2m1': 'missed at first: n-best lists with non-monotone scores added',
+ 'C19-r2m2': 'missed at first: checks now import the printer before choosing the language, as __main__ does',
+})
+EXTRA = {'C02-r2m3': ['C11'], 'C01-r2m2': ['C16'], 'C19-r2m2': ['C07'], 'C12-r2m1': ['C02'], 'C16-m2': ['C11'], 'C18-m3': ['C07'], 'C03-m1': ['C06', 'C04'], 'C04-m2': ['C06'], 'C07-m2': ['C19'], 'C15-m1': ['C07']}
 HISTORY = {
  'C03-m1': 'missed at first (matched parts had <= 3 atoms); generators widened to 6 atoms + one-leaf perturbation',
  'C09-m3': 'missed at first (C09 used head-uniform grammars only); mixed-head grammars added to C09',
@@ -83,16 +164,22 @@ HISTORY = {
 def main(only=None):
     rows = []
     os.makedirs(os.path.join(VERIF, 'seeded'), exist_ok=True)
-    for prop in sorted(os.listdir(SRC)):
-        pd = os.path.join(SRC, prop)
-        if not (os.path.isdir(pd) and prop.startswith('C')):
+    todo = []
+    for src, tag in SOURCES:
+        if not os.path.isdir(src):
             continue
-        for m in sorted(os.listdir(pd)):
-            d = os.path.join(pd, m)
-            if not os.path.isfile(os.path.join(d, 'patch.diff')):
+        for prop in sorted(os.listdir(src)):
+            pd = os.path.join(src, prop)
+            if not (os.path.isdir(pd) and prop.startswith('C')):
                 continue
-            sid = f'{prop}-{m}'
-            if only and sid not in only:
+            for m in sorted(os.listdir(pd)):
+                if os.path.isfile(os.path.join(pd, m, 'patch.diff')):
+                    todo.append((prop, os.path.join(pd, m), f'{prop}-{tag}{m}'))
+    for prop, d, sid in todo:
+        if True:
+            if False:
+                continue
+            if only and sid not in only and not any(sid.startswith(o) for o in only if o.endswith('*')) and not any(o.rstrip('*') in sid for o in only if o.endswith('*')):
                 continue
             dst = os.path.join(VERIF, 'seeded', sid)
             os.makedirs(dst, exist_ok=True)
